@@ -18,7 +18,7 @@ build_coq() {
   if [ ! -f Makefile ] || [ _CoqProject -nt Makefile ]; then
     coq_makefile -f _CoqProject -o Makefile >/dev/null || return 1
   fi
-  timeout 3000 make -j16 2>&1 | tee "$B/coq_build.log" | grep -E "^(File|Error|make.*Error)" | head -20
+  timeout 3000 make -j"${VERIF_JOBS:-16}" 2>&1 | tee "$B/coq_build.log" | grep -E "^(File|Error|make.*Error)" | head -20
   return "${PIPESTATUS[0]}"
 }
 
@@ -26,8 +26,8 @@ build_driver() {
   mkdir -p "$B/ocaml" && cd "$B/ocaml" || return 1
   timeout 600 coqc -Q "$V/coq/theories" Utp -o "$B/ocaml/Extract.vo" "$V/coq/theories/Extract/Extract.v" >"$B/extract.log" 2>&1 || { cat "$B/extract.log"; return 1; }
   rm -f "$B"/ocaml/c_*.ml; cp "$V"/driver/*.ml "$B/ocaml/" || return 1
-  timeout 600 ocamlfind ocamlopt -O2 -w -a -o "$B/modelrun" model.mli model.ml zutil.ml $(ls c_*.ml | sort) modelrun.ml 2>"$B/ocaml_build.log" \
-   || timeout 600 ocamlfind ocamlopt -w -a -o "$B/modelrun" model.mli model.ml zutil.ml $(ls c_*.ml | sort) modelrun.ml 2>"$B/ocaml_build.log" \
+  timeout 600 ocamlfind ocamlopt -O2 -w -a -o "$B/modelrun" model.mli model.ml zutil.ml $(ocamlfind ocamldep -sort c_*.ml) modelrun.ml 2>"$B/ocaml_build.log" \
+   || timeout 600 ocamlfind ocamlopt -w -a -o "$B/modelrun" model.mli model.ml zutil.ml $(ocamlfind ocamldep -sort c_*.ml) modelrun.ml 2>"$B/ocaml_build.log" \
    || { cat "$B/ocaml_build.log"; return 1; }
 }
 
